@@ -23,7 +23,8 @@ def run_one(args):
                            capture_output=True, text=True)
         if r.returncode != 0:
             return sid, "STALE", r.stdout[:200] + r.stderr[:200], meta
-        props = ALL if allchecks else sorted({x.split(".")[0] for x in meta.get("detected_by", [])} | {meta["property"]})
+        props = ALL if allchecks else sorted({x.split(".")[0] for x in meta.get("detected_by", [])} | {meta["property"]}
+                                             | set(meta.get("detected_at_first_by", []) if record else []))
         res = {}
         for p in props:
             rr = subprocess.run([PY, os.path.join(VERIF, "run_check.py"), p, "--tier", tier, "--repo", tmp],
@@ -43,7 +44,7 @@ def run_one(args):
         else:
             verdict = "MISSED"
         detail = "; ".join(f"{p}:{','.join(v[1])}" for p, v in sorted(hit.items()))
-        if record and allchecks:
+        if record:
             meta["detected_by"] = sorted(r for p, v in hit.items() for r in v[1])
             meta["detected"] = bool(hit)
             json.dump(meta, open(os.path.join(d, "meta.json"), "w"), indent=1)
